@@ -35,7 +35,7 @@ def tdiv(n, d):
 
 
 def cases(rng, tier):
-    n = 600 if tier == 'quick' else 30000
+    n = 600 if tier == 'quick' else 10000
     pb = lambda b: 'True' if b else 'False'
     for _ in range(n):
         xs = [rint(rng) for _ in range(rng.randint(1, 6))]
